@@ -2617,6 +2617,28 @@ static void cfg_indent(FILE *fp, int indent)
 		fprintf(fp, "  ");
 }
 
+/* An annotation is written as a C comment. One that contains the end-of-comment
+ * marker would end that comment early and have its tail read back as
+ * configuration text, so it is written as a line comment instead; a text that
+ * fits neither form (set through the API) has the marker taken apart. */
+static void cfg_print_comment(const char *comment, FILE *fp)
+{
+	if (!strstr(comment, "*/")) {
+		fprintf(fp, "/* %s */\n", comment);
+	} else if (!strchr(comment, '\n')) {
+		fprintf(fp, "%s %s\n", comment[0] == '#' ? "//" : "#", comment);
+	} else {
+		fprintf(fp, "/* ");
+		for (; *comment; comment++) {
+			if (comment[0] == '*' && comment[1] == '/')
+				fprintf(fp, "* ");
+			else
+				fprintf(fp, "%c", *comment);
+		}
+		fprintf(fp, " */\n");
+	}
+}
+
 static int cfg_opt_print_pff_indent(cfg_opt_t *opt, FILE *fp,
 				    cfg_print_filter_func_t pff, int indent)
 {
@@ -2627,7 +2649,7 @@ static int cfg_opt_print_pff_indent(cfg_opt_t *opt, FILE *fp,
 
 	if (is_set(CFGF_COMMENTS, opt->flags) && opt->comment) {
 		cfg_indent(fp, indent);
-		fprintf(fp, "/* %s */\n", opt->comment);
+		cfg_print_comment(opt->comment, fp);
 	}
 
 	if (opt->type == CFGT_SEC) {
